@@ -43,10 +43,15 @@ def pool_tables(draw):
     tabs = []
     for side in range(4):
         n = draw(st.integers(1, 6))
+        shape = draw(st.integers(0, 11))
+        if shape == 0 and side in (1, 3):
+            n = 0               # a table without rows (not one the candidate set refers to)
         vals = []
         for _ in range(n):
             k = draw(st.integers(0, 11))
-            if k == 0:
+            if shape == 1:      # a table whose join column holds no value at all
+                vals.append(draw(st.sampled_from([None, float("nan")])))
+            elif k == 0:
                 vals.append(None)
             elif k == 1:
                 vals.append("")
@@ -615,4 +620,117 @@ class ObjectReuse(Component):
         ctx.label("object-reuse:%s:%s" % (ft, m))
 
 
-COMPONENTS = [Stateful(), Interference(), ObjectReuse()]
+SHAPES = {
+    "normal": ["ab ba", "ab ba abb", "a", "", "bab ab", None, "ab ba"],
+    "all-missing": [None, float("nan"), None],
+    "no-rows": [],
+    "one-row": ["ab ba"],
+    "all-empty": ["", " ", ""],
+}
+
+
+class Shapes(Component):
+    """Tokenizer restore and input preservation on degenerate tables: every join and every
+    filter's filter_tables x pooled tokenizer (set and bag mode) x every ordered pair of table
+    shapes (normal, all values missing, no rows, one row, all values empty) x allow_missing x
+    n_jobs.  After each call the tokenizer must be configured as before, the tables unchanged,
+    and a following call with the same tokenizer must equal the call on fresh objects."""
+    name = "shapes"
+    kind = "enum"
+    exhaustive = True
+    rule = "every (entry point, tokenizer, left shape, right shape) cell; all are non-trivial"
+
+    def bounds(self, tier):
+        return {"shapes": sorted(SHAPES), "tokenizers": len(TOK_POOL),
+                "entries": len(SET_MEASURES) + 1 + 5}
+
+    def shards(self, tier):
+        return 16
+
+    def budget_s(self, tier):
+        return 240 if tier == "quick" else 1200
+
+    def cases(self, tier):
+        ents = [("join", m) for m in SET_MEASURES + ["EDIT_DISTANCE"]] + \
+            [("filter", f) for f in ("size", "prefix", "position", "suffix", "overlap")]
+        for kind, what in ents:
+            for ti, tc in enumerate(TOK_POOL):
+                if what == "EDIT_DISTANCE" and tc["kind"] != "qgram":
+                    continue
+                for ls in sorted(SHAPES):
+                    for rs in sorted(SHAPES):
+                        yield {"kind": kind, "what": what, "tok": ti, "l": ls, "r": rs}
+
+    @staticmethod
+    def table(shape, base):
+        vals = SHAPES[shape]
+        return pd.DataFrame({"id": list(range(base, base + len(vals))),
+                             "val": pd.Series(vals, dtype=object),
+                             "cnt": list(range(len(vals)))})
+
+    @staticmethod
+    def call(ctx, api, case, tok, L, R, am, nj):
+        if case["kind"] == "join":
+            m = case["what"]
+            fn = getattr(api, JOIN_NAMES[m])
+            with calls.backend(nj):
+                if m == "EDIT_DISTANCE":
+                    return ctx.lib(fn, L, R, "id", "id", "val", "val", 1, "<=", am, None, ["cnt"],
+                                   "l_", "r_", True, nj, False, tok)
+                if m == "OVERLAP":
+                    return ctx.lib(fn, L, R, "id", "id", "val", "val", tok, 1, ">=", am, None,
+                                   ["cnt"], "l_", "r_", True, nj, False)
+                return ctx.lib(fn, L, R, "id", "id", "val", "val", tok, 0.5, ">=", True, am, None,
+                               ["cnt"], "l_", "r_", True, nj, False)
+        ft = case["what"]
+        if ft == "overlap":
+            f = ctx.lib(api.OverlapFilter, tok, 1, ">=", am)
+        else:
+            f = ctx.lib(getattr(api, FILTER_NAMES[ft]), tok, "JACCARD", 0.5, True, am)
+        if f is None:
+            return None
+        with calls.backend(nj):
+            return ctx.lib(f.filter_tables, L, R, "id", "id", "val", "val", None, ["cnt"],
+                           n_jobs=nj, show_progress=False)
+
+    def check(self, case, ctx):
+        name = ("%s_join" % case["what"].lower()) if case["kind"] == "join" else \
+            "%s.filter_tables" % case["what"]
+        for am in (False, True):
+            for nj in (1, 2):
+                tok = mk_tok(TOK_POOL[case["tok"]])
+                before = canon.tok_state(tok)
+                L, R = self.table(case["l"], 0), self.table(case["r"], 100)
+                sl, sr = canon.snapshot(L), canon.snapshot(R)
+                desc = "%s(tokenizer %r, left table %s, right table %s, allow_missing=%r, " \
+                    "n_jobs=%d)" % (name, TOK_POOL[case["tok"]], case["l"], case["r"], am, nj)
+                got = self.call(ctx, ssj, case, tok, L, R, am, nj)
+                if canon.tok_state(tok) != before:
+                    ctx.violation("kind=tokenizer-changed,call=%s" % name,
+                                  "%s left the tokenizer as %s, was %s"
+                                  % (desc, canon.tok_state(tok), before))
+                if canon.snapshot(L) != sl or canon.snapshot(R) != sr:
+                    ctx.violation("kind=input-table-modified,call=%s" % name,
+                                  "%s modified an input table" % desc)
+                # a following call with the same tokenizer on ordinary tables
+                N1, N2 = self.table("normal", 0), self.table("normal", 100)
+                after = self.call(ctx, ssj, case, tok, N1, N2, am, 1)
+                with FreshLibrary().active() as fresh:
+                    ftok = mk_tok(TOK_POOL[case["tok"]])
+                    want = self.call(ctx, fresh, case, ftok, self.table("normal", 0),
+                                     self.table("normal", 100), am, 1)
+                if after is not None and want is not None and \
+                        World.canon_result(after) != World.canon_result(want):
+                    ctx.violation("kind=result-depends-on-history,call=%s" % name,
+                                  "after %s the same entry point on ordinary tables returns %r; "
+                                  "on fresh objects %r" % (desc, str(World.canon_result(after))[:200],
+                                                           str(World.canon_result(want))[:200]))
+                if got is not None and not isinstance(got, pd.DataFrame):
+                    ctx.violation("kind=not-a-dataframe,call=%s" % name, "%s returned %r"
+                                  % (desc, type(got)))
+        ctx.nontrivial(True)
+        ctx.label("shapes:%s" % name)
+        ctx.label("bag-tokenizer", not TOK_POOL[case["tok"]]["return_set"])
+
+
+COMPONENTS = [Stateful(), Interference(), ObjectReuse(), Shapes()]
